@@ -135,6 +135,21 @@ CLAIMS = {
         "library handlers let delivery errors escape. Scan obligations: writers of the guard, places where it is lifted.",
    note="Trusted: pyvc encoding, z3; interface contracts of handlers and init_sblock. The composition 'refused re-entry stops the "
         "simulation through any chain of blocks' is a textual argument over the two function-level facts (see evidence.unclaimed)."),
+ 'C12': dict(
+   text="OutputAsync.__init__, _event_put, _output_coro, _output_coro_wrapper, _ctrl_wait, _ctrl_cancel, _ctrl_start, start, stop, "
+        "stop_async and utils.shield_cancel are executed from the real AST over a FIFO model of the data queue (everything ever put, a "
+        "head index; other tasks only append).  _output_coro: for ANY data dict exactly one kind of result event (success / error / "
+        "cancel) is sent to every configured destination, in order, carrying the original data, then the shielded guard sleep has "
+        "elapsed in full (this obligation found the missing-item defect, fixed in /repo).  Wrapper: counter +1 first, -1 last on every "
+        "exit.  wait: the k-th run is for the k-th queued item, until the sentinel.  start: every item gets its own task at once, "
+        "all awaited at the end.  cancel: accounting ghosts prove that a run is cancelled only when a newer item arrived, every item "
+        "taken is either run or reported as cancelled with its own data to every on_cancel destination, at most one run is active, the "
+        "most recent item gets the run and that run has finished at exit.  stop: stop_data then the sentinel are queued last; start "
+        "mode: stop_data run after the control task.  shield_cancel returns or re-raises only after the awaitable has finished.",
+   note="Trusted: pyvc encoding, z3; asyncio.Queue/create_task/shield/gather/Task interface; the user coroutine behind an interface "
+        "contract; set_output and Event.send contracts; helper calls of __init__ (event_tuple C02, time_period C19, inherited "
+        "constructors) by their contracts.  Whole-history clauses (guard time between two consecutive runs, completion within "
+        "stop_timeout) follow from the per-function contracts plus C08 and are stated, not re-proved as one theorem."),
  'C13': dict(
    text="The three comparison functions (_cmp_open, _cmp_closed, DateTimeInterval._cmp_open), the dispatch _cmp and __contains__ for the "
         "three interval kinds, convert_time_seq/convert_date_seq (length windows, zero defaults, range errors), _name_to_month (13-step "
